@@ -21,8 +21,10 @@ type Shape struct {
 	StepsFactor  int // percent
 	Watchers     bool
 	ChangingSets bool // validator set changes between heights (C05)
+	MaybeChanging int // percent of runs with changing validator sets
 	ManyTxs      bool
 	Avoid        map[string]bool
+	Probes       int
 }
 
 var epoch0 = time.Date(2024, 1, 1, 0, 0, 0, 0, time.UTC)
@@ -60,6 +62,9 @@ func RunSafety(r sim.Src, mons []*sim.Mon, keepLog bool, sh Shape) *sim.World {
 	}
 	if n < sh.MinN {
 		n = sh.MinN
+	}
+	if sh.MaybeChanging > 0 && sim.Scramble(r.Intn("changing", 100), 100) < sh.MaybeChanging {
+		sh.ChangingSets = true
 	}
 	F := (n - 1) / 3
 	ids := n
@@ -192,7 +197,7 @@ func RunSafety(r sim.Src, mons []*sim.Mon, keepLog bool, sh Shape) *sim.World {
 	if sh.ManyTxs {
 		ntx += 3
 	}
-	o := sim.AsyncOpts{Steps: steps, Heights: heights, NoRestart: sh.NoRestart, InitialTxs: ntx, ProfileOnly: sh.Profile, Avoid: sh.Avoid}
+	o := sim.AsyncOpts{Steps: steps, Heights: heights, NoRestart: sh.NoRestart, InitialTxs: ntx, ProfileOnly: sh.Profile, Avoid: sh.Avoid, Probes: sh.Probes}
 	w.Stat(fmt.Sprintf("N=%d", n))
 	if len(byz) > 0 {
 		w.Stat("has_byz")
@@ -202,6 +207,9 @@ func RunSafety(r sim.Src, mons []*sim.Mon, keepLog bool, sh Shape) *sim.World {
 	}
 	if amev >= 0 {
 		w.Stat("amev")
+	}
+	if sh.ChangingSets {
+		w.Stat("changing_sets")
 	}
 	sim.RunAsync(w, o)
 	return w
